@@ -98,14 +98,11 @@ def run(ctx):
         # A: invariants and every transition printed, in one run
         (ctx, "A-edges", "C08_MC", _cfg("A", inv="TypeOKA BindingA HonestA RoundTripA", edges=True), None),
         (ctx, "B-edges", "C08_MCB", _cfg("B", edges=True), None),
-        (ctx, "C-edges", "C08_MC", _cfg("C", inv="TypeOKC", edges=True), None),
-        (ctx, "C-props", "C08_MC", _cfg("C", inv="TypeOKC", props="AxiomC IdentityC"), None),
+        (ctx, "C-edges", "C08_MC", _cfg("C", inv="TypeOKC", props="AxiomC IdentityC", edges=True), None),
     ]
     for v in BROKEN:
         jobs.append((ctx, "A-broken-" + v, "C08_MC", _cfg("A", {"Variant": '"%s"' % v}, inv="BindingA"), "BindingA"))
-    for p in REACH:
-        jobs.append((ctx, "A-" + p, "C08_MC", _cfg("A", inv=p), p))
-    jobs.append((ctx, "C-ReachExtracted", "C08_MC", _cfg("C", inv="ReachExtracted"), "ReachExtracted"))
+    # (the reachability guards Reach* of the spec are evaluated on the printed graphs below)
     # a deeper attacker, exhaustive only (not printed): three edits (63 k states); thorough: four (832 k)
     jobs.append((ctx, "A-deep3", "C08_MC", _cfg("A", {"MaxEdits": 3}, inv="TypeOKA BindingA HonestA RoundTripA"), None))
     # at most 4 TLC workers at a time: a pool of four single-worker runs, then (thorough) two 2-worker runs
@@ -117,8 +114,11 @@ def run(ctx):
     goenv.make_overlay = lambda _ctx, _p=ov: _p
     tpool = cf.ThreadPoolExecutor(max_workers=3)
     fb = tpool.submit(goenv.run_harness, ctx, PKG, "^TestVerifC08Bytes$", timeout=1500)
-    with cf.ProcessPoolExecutor(max_workers=4) as ex:
-        results = {r["name"]: r for r in ex.map(_job, jobs)}
+    # the printing runs are on the critical path (graph -> behaviours -> replay): they go first and the
+    # replay starts as soon as they are done, while the guard / deep runs continue in the pool
+    ppool = cf.ProcessPoolExecutor(max_workers=4)
+    futs = [(j[1], ppool.submit(_job, j)) for j in jobs]
+    results = {n: f.result() for n, f in futs[:3]}
     if thorough:
         big = [(ctx, "A-deep4", "C08_MC", _cfg("A", {"MaxEdits": 4}, inv="TypeOKA BindingA HonestA RoundTripA"), None, 2),
                # shifted-boundary pairs over strings of length <= 3 (2940 sealed triples)
@@ -126,9 +126,7 @@ def run(ctx):
         with cf.ProcessPoolExecutor(max_workers=2) as ex:
             results.update({r["name"]: r for r in ex.map(_job, big)})
 
-    log("C08: %d TLC runs done at %.1fs" % (len(results), ctx.wall()))
-    states = sum(r["distinct"] for r in results.values())
-    trans = sum(r["generated"] for r in results.values())
+    log("C08: printing TLC runs done at %.1fs" % ctx.wall())
 
     # ---- graphs, vacuity on the printed graphs, behaviours
     gA = graph.Graph(results["A-edges"]["inits"], results["A-edges"]["edges"])
@@ -146,6 +144,28 @@ def run(ctx):
     for kind in ("untyped", "typed", "pmem", "pds", "voucher"):
         if not accA.get((kind, "yes")) or not accA.get((kind, "no")):
             raise MachineryError("vacuous: consumer %s never accepts / never rejects in the part A graph" % kind)
+    # the spec's reachability guards (ReachAttackerAccepted, ReachForeignOwner, ReachLookalike,
+    # ReachForeignAltSig, ReachExtracted), evaluated on the printed graphs instead of five more JVM runs
+    reach = dict.fromkeys(REACH + ("ReachExtracted",), 0)
+    for sk, op, _t in gA.edges:
+        if op["name"] != "consume":
+            continue
+        w = gA.states[sk]["wire"]
+        if w["key"] == "kA" and op["acc"] == "yes":
+            reach["ReachAttackerAccepted"] += 1
+        if w["ok"] and w["pay"]["fam"] == "peer" and op["kind"] == "untyped" and op["d"] == "peer" and op["acc"] == "yes":
+            if w["pay"]["owner"] != w["key"]:
+                reach["ReachForeignOwner"] += 1
+            elif w["pay"]["oenc"] == "alt":
+                reach["ReachLookalike"] += 1
+        if w["ok"] and w["senc"] == "alt" and w["sig"]["k"] == "kA" and w["key"] == "kH":
+            reach["ReachForeignAltSig"] += 1
+    for st in gC.states.values():
+        if st["form"] == "pk" and st["via"] == "id" and st["sig"]["who"] != 0:
+            reach["ReachExtracted"] += 1
+    for g_, n_ in reach.items():
+        if not n_:
+            raise MachineryError("vacuity guard: %s is not reachable in the printed graphs" % g_)
     why = {}
     for _s, op, _t in gB.edges:
         for v in op["why"]:
@@ -186,17 +206,24 @@ def run(ctx):
     fk = tpool.submit(goenv.run_harness, ctx, PKG, "^TestVerifC08Keys$", inputs=beh, timeout=1500)
     try:
         env, byt, key = fe.result(), fb.result(), fk.result()
+        for n, f in futs[3:]:
+            results[n] = f.result()
     finally:
         tpool.shutdown(wait=True)
+        ppool.shutdown(wait=True)
+    log("C08: all %d TLC runs and the replay done at %.1fs" % (len(results), ctx.wall()))
+    states = sum(r["distinct"] for r in results.values())
+    trans = sum(r["generated"] for r in results.values())
     div = 0
     for res, what in ((env, "envelope"), (byt, "bytes"), (key, "keys")):
         if res["_rc"] != 0:
             raise MachineryError("harness test %s failed:\n%s" % (what, res["_log"][-3000:]))
         div += classify_mismatches(ctx, res, what)
     ntypes = 5 if thorough else 4
-    if env["replayed"] < len(wA) * (ntypes + 1) + len(wB) * ntypes:
-        raise MachineryError("envelope replay executed %d behaviours, expected at least %d"
-                             % (env["replayed"], len(wA) * (ntypes + 1) + len(wB) * ntypes))
+    n_alt = sum(1 for w in wA if any(st["op"]["name"] in ("reencode", "attseal") for st in w["steps"]))
+    want = (len(wA) - n_alt) * (ntypes + 1) + n_alt * ((ntypes + 1) if thorough else 2) + len(wB) * ntypes
+    if env["replayed"] < want:
+        raise MachineryError("envelope replay executed %d behaviours, expected at least %d" % (env["replayed"], want))
     if key["replayed"] < len(wC):
         raise MachineryError("key replay executed %d behaviours for %d walks" % (key["replayed"], len(wC)))
     bx = byt.get("extra", {})
